@@ -222,6 +222,8 @@ func runC08(c *core.Check) {
 	checkGlobals(c, "C08.globals", scope)
 	checkNondetCalls(c, "C08.nondet", scope)
 	c.Floor("C08.order", 8)
+	c.Rule("C08.memo-key", "a memo (early return of a remembered value, later store) is keyed by every input its computation reads")
+	c.Note("memo-key: %d functions of memo shape in scope", checkMemoKeys(c, "C08.memo-key", scope, c.P.RepoPkgs()))
 
 	comp := mustFunc(c, "d2compiler", "", "Compile")
 	if comp == nil {
@@ -281,6 +283,8 @@ func runC25(c *core.Check) {
 	checkGlobals(c, "C25.globals", scope)
 	checkMapRanges(c, "C25.order", scope)
 	checkNondetCalls(c, "C25.nondet", scope)
+	c.Rule("C25.memo-key", "a memo (early return of a remembered value, later store) is keyed by every input and every mode of its object that the computation reads")
+	c.Note("memo-key: %d functions of memo shape in scope", checkMemoKeys(c, "C25.memo-key", scope, c.P.RepoPkgs()))
 	c.Floor("C25.order", 15)
 	c.Floor("C25.globals", 3)
 }
